@@ -1,0 +1,41 @@
+//go:build verif
+
+package barriers
+
+// Contracts for the deductive verifier in /verif (comment-only file; see /verif/DESIGN.md).
+
+//@ type barrierErr invariant self.maskedErr != nil
+
+//@ method (*barrierErr).Error
+//@   props C10 C07
+//@   ensures result == strip(self.smsg)
+
+//@ func HandledWithSafeMessage
+//@   props C10 C07
+//@   ensures err == nil ==> result == nil
+//@   ensures err != nil ==> typeis(result, *barrierErr) && result.(*barrierErr).maskedErr == err && result.(*barrierErr).smsg == msg
+
+//@ func Handled
+//@   props C10 C07
+//@   ensures err == nil ==> result == nil
+//@   ensures err != nil ==> typeis(result, *barrierErr) && result.(*barrierErr).maskedErr == err
+
+//@ func HandledWithMessage
+//@   props C10 C07
+//@   ensures err == nil ==> result == nil
+//@   ensures err != nil ==> typeis(result, *barrierErr) && result.(*barrierErr).maskedErr == err
+
+//@ func HandledWithMessagef
+//@   props C10 C07
+//@   ensures err == nil ==> result == nil
+//@   ensures err != nil ==> typeis(result, *barrierErr) && result.(*barrierErr).maskedErr == err
+
+//@ func decodeBarrier
+//@   props C05 C01 C07
+//@   requires typeis(payload, *errorspb.EncodedError) && payload.(*errorspb.EncodedError).Error != nil ==> complete(deref(payload.(*errorspb.EncodedError)))
+//@   ensures typeis(payload, *errorspb.EncodedError) && payload.(*errorspb.EncodedError).Error != nil ==> typeis(result, *barrierErr) && result.(*barrierErr).smsg == msg
+
+//@ func decodeBarrierPrev
+//@   props C05 C01 C07
+//@   requires typeis(payload, *errorspb.EncodedError) && payload.(*errorspb.EncodedError).Error != nil ==> complete(deref(payload.(*errorspb.EncodedError)))
+//@   ensures typeis(payload, *errorspb.EncodedError) && payload.(*errorspb.EncodedError).Error != nil ==> typeis(result, *barrierErr)
